@@ -85,7 +85,15 @@ func (o *OracleC05) AfterBlock(c *Chain, b *BlockCtx) []*Violation {
 		}
 	}
 	if !left.Equal(recorded) {
-		out = append(out, o.v(b.H, "stake-taken", "recorded-ne-moved", "block %d: %s left the staking pools for dispute escrow but the per-backer records grew by %s", b.H, left, recorded))
+		class := "recorded-ne-moved"
+		if d := recorded.Sub(left); d.IsPositive() && d.LTE(math.NewInt(int64(len(cur))*4+4)) {
+			class = "recorded-exceeds-moved-by-truncation-units"
+		} else if sameReportDisputedAgain(v) {
+			class = "recorded-ne-moved:report-already-slashed-by-earlier-dispute"
+		} else if backerMovedStake(c, v) {
+			class = "recorded-ne-moved:backer-moved-stake-since-report"
+		}
+		out = append(out, o.v(b.H, "stake-taken", class, "block %d: %s left the staking pools for dispute escrow but the per-backer records grew by %s", b.H, left, recorded))
 	}
 	if left.IsPositive() {
 		o.count("blocks_with_stake_taken")
@@ -149,3 +157,48 @@ func (o *OracleC05) AfterBlock(c *Chain, b *BlockCtx) []*Violation {
 }
 
 func (o *OracleC05) End(c *Chain) []*Violation { return nil }
+
+// sameReportDisputedAgain: input-level diagnosis — the newest funded dispute names a report that an earlier
+// funded dispute (other category) already took stake for.
+func sameReportDisputedAgain(v *View) bool {
+	ds := v.Disputes()
+	for i := range ds {
+		for j := 0; j < i; j++ {
+			e, l := ds[j].D.InitialEvidence, ds[i].D.InitialEvidence
+			if e.Reporter == l.Reporter && e.BlockNumber == l.BlockNumber && string(e.QueryId) == string(l.QueryId) && string(ds[j].D.HashId) != string(ds[i].D.HashId) && ds[j].V != nil && ds[i].V != nil {
+				return true
+			}
+		}
+	}
+	return false
+}
+
+// backerMovedStake: input-level diagnosis — a backer named in an escrow record executed an undelegate or
+// redelegate transaction earlier in this history (so its stake is no longer where the report snapshot says).
+func backerMovedStake(c *Chain, v *View) bool {
+	moved := map[string]bool{}
+	for id, rec := range c.Accounts.Outcomes {
+		if rec.Code != 0 {
+			continue
+		}
+		in := c.Accounts.Intents[id]
+		if in == nil {
+			continue
+		}
+		for _, m := range in.Msgs {
+			if m.K == "undelegate" || m.K == "redelegate" {
+				moved[string(c.Accounts.Addr(in.Actor))] = true
+			}
+		}
+	}
+	found := false
+	_ = v.n.App.ReporterKeeper.DisputedDelegationAmounts.Walk(v.ctx, nil, func(k []byte, d reportertypes.DelegationsAmounts) (bool, error) {
+		for _, t := range d.TokenOrigins {
+			if moved[string(t.DelegatorAddress)] {
+				found = true
+			}
+		}
+		return false, nil
+	})
+	return found
+}
